@@ -66,6 +66,9 @@ func c02(c *q.Ctx) {
 	}, "the in-memory total has one mutator")
 	if up := c.Fn(utxo + "(*UtxoVM).UpdateUtxoTotal"); up != nil {
 		c.ArgIs(up, "Batch.Put", 1, "*big.(*Int).Bytes(p0.utxoTotal)*", 1, "the persisted total is the in-memory total")
+		c.Before(up, q.ToCall("Batch.Put"), q.ToReturn(), "every change of the in-memory total is staged in the caller's batch, in both directions")
+		c.ArgIs(up, "Batch.Put", -1, "p2", 1, "staged in the batch of the block being played or undone")
+		c.EffectExists(up, "Batch.Put", 0, "append(\"M\",\"xtotal\")", nil, "the persisted total lives under the meta key NewState reloads")
 		c.Guard(up, q.Cond{Canon: "p3", Sense: true}, q.ToCall("big::Int.Sub"), q.Opt{})
 		c.Guard(up, q.Cond{Canon: "p3", Sense: false}, q.ToCall("big::Int.Add"), q.Opt{})
 	}
